@@ -153,11 +153,24 @@ func vNewShard(i, K int, full bool, env int) *vShard {
 		s.postOK = zzv.Bool(p + ".postOK")
 		s.extraOK = zzv.Bool(p + ".extraOK")
 	}
-	r := vRuntime(p)
-	s.rt = *r
-	for h := 1; h <= K; h++ {
-		if zzv.Choose(p+".has."+zzv.Itoa(h), 2) == 1 {
-			s.status[uint64(h)] = vStatus(p + ".h" + zzv.Itoa(h))
+	if env&16 != 0 {
+		// bit 4: concrete loads (used for the "other" replica in C19's quick tier)
+		s.rt = shard.RuntimeInfo{HeadSeries: 5, ProcessSeries: 7}
+		for h := 1; h <= K; h++ {
+			if zzv.Choose(p+".has."+zzv.Itoa(h), 2) == 1 {
+				st := target.NewScrapeStatus(3, 4)
+				st.Health = scrape.HealthGood
+				st.ScrapeTimes = 9
+				s.status[uint64(h)] = st
+			}
+		}
+	} else {
+		r := vRuntime(p)
+		s.rt = *r
+		for h := 1; h <= K; h++ {
+			if zzv.Choose(p+".has."+zzv.Itoa(h), 2) == 1 {
+				s.status[uint64(h)] = vStatus(p + ".h" + zzv.Itoa(h))
+			}
 		}
 	}
 	// a sidecar is idle exactly when it has no targets (guaranteed by C10); the instant is free
@@ -349,6 +362,12 @@ func VCycle(S, K, env int) {
 	}
 	if zzv.Prop("C07") {
 		cy.assertC07()
+	}
+	if zzv.Prop("C03") {
+		cy.assertC03()
+	}
+	if zzv.Prop("C06") {
+		cy.assertC06()
 	}
 	cy.observe()
 	zzv.Cover("cycle.end")
@@ -719,4 +738,225 @@ func (cy *vCycle) tailGotTarget(n int32) bool {
 		}
 	}
 	return r
+}
+
+// eligible: h is discovered, no reachable shard reports it, the explorer knows it as healthy and it
+// fits into an empty shard under both limits.
+func (cy *vCycle) eligibleUnscraped(h uint64) (known bool, eligible bool, nonzero bool) {
+	if _, isActive := cy.active[h]; !isActive {
+		return false, false, false
+	}
+	for i, s := range cy.shards {
+		if _, ok := cy.snap[i][h]; ok && s.reachable() {
+			return false, false, false
+		}
+	}
+	st, ok := cy.exSnap[h]
+	if !ok {
+		return false, false, false
+	}
+	opt := cy.opt
+	fits := zzv.And(st.TotalSeries < opt.MaxProcessSeries, st.Series < opt.MaxProcessSeries, zzv.Or(opt.MaxHeadSeries == 0, st.Series < opt.MaxHeadSeries))
+	return true, zzv.And(st.Health == scrape.HealthGood, fits), zzv.Or(st.Series != 0, st.TotalSeries != 0)
+}
+
+func (cy *vCycle) assertC03() {
+	if cy.crashed {
+		return
+	}
+	opt := cy.opt
+	S := int32(cy.S)
+	allInSync := true
+	for _, s := range cy.shards {
+		if !s.inSync() {
+			allInSync = false
+		}
+	}
+	// placement: a target no shard reports is newly listed on at most one shard, in normal state
+	unplaced := false
+	unplacedZero := false
+	for h := uint64(1); h <= uint64(cy.K); h++ {
+		known, elig, nonzero := cy.eligibleUnscraped(h)
+		if !known {
+			continue
+		}
+		n := 0
+		for j, s := range cy.shards {
+			if cy.isNew(j, h) {
+				n++
+				zzv.Cover("c03.placed")
+				zzv.Assert("C03.placed.normal", s.posted[h].TargetState == target.StateNormal)
+				zzv.Assert("C03.placed.healthy", cy.exSnap[h].Health == scrape.HealthGood)
+			}
+		}
+		zzv.Assert("C03.placed.atmostonce", n <= 1)
+		if n == 0 {
+			unplaced = zzv.Or(unplaced, elig)
+			unplacedZero = zzv.Or(unplacedZero, zzv.And(elig, !nonzero))
+		}
+		// K = 1: no other target competes for room, so an eligible target is placed whenever some
+		// in-sync shard reported room for it under both limits
+		if cy.K == 1 && n == 0 {
+			st := cy.exSnap[h]
+			room := false
+			for _, s := range cy.shards {
+				if s.inSync() {
+					room = zzv.Or(room, zzv.And(s.rt.ProcessSeries+st.TotalSeries < opt.MaxProcessSeries, zzv.Or(opt.MaxHeadSeries == 0, s.rt.HeadSeries+st.Series < opt.MaxHeadSeries)))
+				}
+			}
+			zzv.Assert("C03.placed.whenroom", !zzv.And(elig, room))
+		}
+	}
+	// scale-up clause: all shards in sync and an eligible unscraped target left unplaced => the
+	// final scale request exceeds the current count (asserted while more shards are allowed)
+	if allInSync && len(cy.mgr.scaleCalls) > 0 {
+		zzv.Cover("c03.allinsync")
+		last := cy.mgr.scaleCalls[len(cy.mgr.scaleCalls)-1]
+		// F1: a target whose estimate is (0,0) adds nothing to the needed space
+		zzv.Finding("C03-F1", unplacedZero)
+		zzv.Assert("C03.scaleup", zzv.Implies(zzv.And(unplaced, S < opt.MaxShard), last > S))
+	}
+	// stability: from a converged report set nothing changes
+	if allInSync && cy.S > 0 {
+		conv := opt.MaxIdleTime == 0
+		for h := uint64(1); h <= uint64(cy.K); h++ {
+			_, isActive := cy.active[h]
+			holders := 0
+			for i := range cy.shards {
+				if st, ok := cy.snap[i][h]; ok {
+					holders++
+					conv = zzv.And(conv, isActive, st.TargetState == target.StateNormal)
+				}
+			}
+			if holders > 1 {
+				conv = false
+			}
+			if isActive && holders == 0 {
+				// an unassigned target is acceptable only if it is not eligible
+				known, elig, _ := cy.eligibleUnscraped(h)
+				if known {
+					conv = zzv.And(conv, !elig)
+				}
+				st, ok := cy.exSnap[h]
+				if ok {
+					// ... and not one that the code would still try to place or count as needed space
+					conv = zzv.And(conv, st.Health != scrape.HealthGood)
+				}
+			}
+		}
+		for _, s := range cy.shards {
+			conv = zzv.And(conv, s.rt.ProcessSeries < opt.MaxProcessSeries, zzv.Or(opt.MaxHeadSeries == 0, s.rt.HeadSeries < opt.MaxHeadSeries))
+		}
+		same := true
+		for j, s := range cy.shards {
+			if s.nPosted == 0 {
+				continue
+			}
+			for h := uint64(1); h <= uint64(cy.K); h++ {
+				st, was := cy.snap[j][h]
+				t, is := s.posted[h]
+				if was != is {
+					same = false
+				} else if was {
+					same = zzv.And(same, t.TargetState == st.TargetState)
+				}
+			}
+		}
+		want := zzv.IfInt32(S > opt.MaxShard, opt.MaxShard, zzv.IfInt32(S < opt.MinShard, opt.MinShard, S))
+		scaleSame := true
+		for _, n := range cy.mgr.scaleCalls {
+			scaleSame = zzv.And(scaleSame, n == want)
+		}
+		zzv.Cover("c03.stability.checked")
+		zzv.Assert("C03.stable.lists", zzv.Implies(conv, same))
+		zzv.Assert("C03.stable.scale", zzv.Implies(zzv.And(conv, opt.MinShard <= S), scaleSame))
+	}
+}
+
+// assertC06: the states faults leave behind are left again by a fault-free cycle.
+func (cy *vCycle) assertC06() {
+	if cy.crashed {
+		return
+	}
+	opt := cy.opt
+	for h := uint64(1); h <= uint64(cy.K); h++ {
+		if _, isActive := cy.active[h]; !isActive {
+			continue
+		}
+		var holders []int
+		reachableOnly := true
+		for i, s := range cy.shards {
+			if _, ok := cy.snap[i][h]; ok && s.reachable() {
+				holders = append(holders, i)
+				if !s.inSync() {
+					reachableOnly = false
+				}
+			}
+		}
+		if !reachableOnly {
+			continue
+		}
+		// (1) a lone in_transfer copy (its partner never arrived, or was scaled away): after the
+		// cycle some in-sync shard must be told to scrape the target in normal state
+		if len(holders) == 1 {
+			i := holders[0]
+			st := cy.snap[i][h]
+			normalSomewhere := false
+			for j, s := range cy.shards {
+				if !s.inSync() {
+					continue
+				}
+				if s.nPosted > 0 {
+					if t, ok := s.posted[h]; ok {
+						normalSomewhere = zzv.Or(normalSomewhere, t.TargetState == target.StateNormal)
+					}
+				} else if j == i {
+					normalSomewhere = zzv.Or(normalSomewhere, st.TargetState == target.StateNormal)
+				}
+			}
+			zzv.Cover("c06.lone")
+			// F2: nothing ever clears a lone in_transfer copy
+			zzv.Finding("C06-F2", st.TargetState == target.StateInTransfer)
+			zzv.Assert("C06.lone.transfer.cleared", zzv.Implies(st.TargetState == target.StateInTransfer, normalSomewhere))
+		}
+		// (2) two qualified normal copies: the cycle removes (or starts moving) one of them
+		if len(holders) == 2 {
+			a, b := holders[0], holders[1]
+			sa, sb := cy.snap[a][h], cy.snap[b][h]
+			both := zzv.And(sa.TargetState == target.StateNormal, sb.TargetState == target.StateNormal, sa.ScrapeTimes >= vHandover, sb.ScrapeTimes >= vHandover)
+			// progress: afterwards the two shards do not both list a normal copy any more (one was
+			// removed, or one was marked in_transfer because a move between them was started)
+			progress := !zzv.And(cy.stateAfter(a, h) == "normal", cy.stateAfter(b, h) == "normal")
+			ra, rb := cy.shards[a].rt, cy.shards[b].rt
+			equalLoad := zzv.Or(zzv.And(opt.MaxHeadSeries != 0, ra.HeadSeries == rb.HeadSeries), zzv.And(opt.MaxHeadSeries == 0, ra.ProcessSeries == rb.ProcessSeries))
+			zzv.Cover("c06.duplicate")
+			// F1: duplicates on shards that report exactly equal load are never de-duplicated
+			zzv.Finding("C06-F1", equalLoad)
+			zzv.Assert("C06.duplicate.resolved", zzv.Implies(both, progress))
+			// an in_transfer copy next to a qualified normal one is dropped in this cycle
+			moving := zzv.And(sa.TargetState == target.StateInTransfer, sb.TargetState == target.StateNormal, sa.ScrapeTimes >= vHandover, sb.ScrapeTimes >= vHandover)
+			zzv.Assert("C06.transfer.completes", zzv.Implies(moving, cy.stateAfter(a, h) != "moving"))
+		}
+	}
+}
+
+// stateAfter: "gone", "normal" or "moving" - what shard j's list says about h after the cycle
+// (the posted list if a target POST was issued, else the reported one).
+func (cy *vCycle) stateAfter(j int, h uint64) string {
+	s := cy.shards[j]
+	var st string
+	if s.nPosted > 0 {
+		t, ok := s.posted[h]
+		if !ok {
+			return "gone"
+		}
+		st = t.TargetState
+	} else {
+		r, ok := cy.snap[j][h]
+		if !ok {
+			return "gone"
+		}
+		st = r.TargetState
+	}
+	return zzv.IfStr(st == target.StateInTransfer, "moving", "normal")
 }
